@@ -109,8 +109,8 @@ def total_and_deterministic(ctx, r):
                 ctx.violation("C12 crash on log mutation %s" % kind, "%s exited %s: %s" % (argv, rc, se[-300:]), {"mutation": kind, "argv": argv, "log_tail": data[-300:].decode("utf-8", "replace")}); return
             if rc == 1 and se.strip() == "":
                 ctx.violation("C12 failure without message", "%s exited 1 silently" % argv, {"mutation": kind}); return
-            if rc == 1 and "invalid JSON in events log" in se:
-                m = re.search(r"(\S+plans\.jsonl):(\d+): invalid JSON", se)
+            if rc == 1 and ("invalid JSON in events log" in se or "git conflict markers in events log" in se):
+                m = re.search(r"(\S+plans\.jsonl):(\d+): (?:invalid JSON|git conflict markers)", se)
                 if not m or not os.path.samefile(m.group(1), st.log_path()):
                     ctx.violation("C12 parse error does not name file and line", se.strip()[:200], {"mutation": kind}); return
                 ln = int(m.group(2)); phys = data.split(b"\n")
@@ -123,6 +123,13 @@ def total_and_deterministic(ctx, r):
                     bad_ok = True
                 if ln < 1 or ln > len(phys):
                     ctx.violation("C12 parse error names a line that does not exist", se.strip()[:200], {"mutation": kind}); return
+                # the line named must be the first one that is not an event (the byte-level model of readEvents says which)
+                if kind != "huge" and len(data) < 2000000:
+                    exp = ctx.model.ask({"op": "storage", "file": data.hex(), "classes": {}, "limit": 10 * 1024 * 1024, "append": []}).get("read", {})
+                    if exp.get("err") == "bad_line" and exp.get("line") != ln:
+                        ctx.violation("C12 parse error names the wrong line", "%s reports line %d; the first line of the log that is not an event is line %d: %r" %
+                                      (" ".join(argv), ln, exp["line"], phys[exp["line"] - 1][:120].decode("utf-8", "replace")),
+                                      {"mutation": kind, "argv": argv, "log": data.decode("utf-8", "replace") if len(data) < 6000 else None, "stderr": se.strip()[:300]}); return
             if any(o != outs[0] for o in outs[1:]):
                 which = "stdout" if any(o[1] != so for o in outs[1:]) else "stderr/exit"
                 ctx.violation("C12 nondeterministic output of %s" % " ".join(a for a in argv if a not in ids), "same log, same command, different %s across runs" % which,
